@@ -69,6 +69,33 @@ pub fn div_rem_mix<const BITS: usize, const LIMBS: usize>(a: Uint<BITS, LIMBS>, 
     (mix(&a, &b, 0x5555), mix(&b, &a, 0x6666))
 }
 
+pub fn pow_mix<const BITS: usize, const LIMBS: usize>(a: Uint<BITS, LIMBS>, e: Uint<BITS, LIMBS>) -> Uint<BITS, LIMBS> {
+    mix(&a, &e, 0x7777)
+}
+pub fn inv_ring_mix<const BITS: usize, const LIMBS: usize>(a: Uint<BITS, LIMBS>) -> Option<Uint<BITS, LIMBS>> {
+    if flag(&a, &a, 0x8888) {
+        Some(mix(&a, &a, 0x8888))
+    } else {
+        None
+    }
+}
+pub fn gcd_mix<const BITS: usize, const LIMBS: usize>(a: Uint<BITS, LIMBS>, b: Uint<BITS, LIMBS>) -> Uint<BITS, LIMBS> {
+    mix(&a, &b, 0x9999)
+}
+pub fn lcm_mix<const BITS: usize, const LIMBS: usize>(a: Uint<BITS, LIMBS>, b: Uint<BITS, LIMBS>) -> Option<Uint<BITS, LIMBS>> {
+    if flag(&a, &b, 0xaaaa) {
+        Some(mix(&a, &b, 0xaaaa))
+    } else {
+        None
+    }
+}
+pub fn gcd_extended_mix<const BITS: usize, const LIMBS: usize>(
+    a: Uint<BITS, LIMBS>,
+    b: Uint<BITS, LIMBS>,
+) -> (Uint<BITS, LIMBS>, Uint<BITS, LIMBS>, Uint<BITS, LIMBS>, bool) {
+    (mix(&a, &b, 0xbbbb), mix(&b, &a, 0xcccc), mix(&a, &b, 0xdddd), flag(&a, &b, 0xbbbb))
+}
+
 // ---- shape pinning (DESIGN 4.4): kernels that the harness' domain makes
 // unreachable are replaced by panicking bodies; reaching one is a checked
 // failure, not an assumption.
@@ -173,4 +200,92 @@ pub fn reciprocal_2_spec(d: u128) -> u64 {
 #[cfg(not(kani))]
 pub fn reciprocal_2_spec(d: u128) -> u64 {
     ruint::algorithms::div::reciprocal_2(d)
+}
+
+// ---- C09 formatting: `core::fmt::Formatter::pad_integral` is the one library routine through which both the
+// primitive integers and ruint emit their digit strings; it applies sign, `#` prefix, width, fill and alignment.
+// CBMC does not get through its real body (char-by-char padding over `dyn Write`), so the formatting harnesses
+// replace it by this model of its documented behaviour for the flag combinations they use (no explicit
+// fill/alignment): optional prefix when `#`, then zero padding up to the width when `0`, then the digits.
+// ruint's own inner `write!(buffer, "{:0width$x}", limb)` calls run through the same model.
+pub const ZEROS: &str = "0000000000000000000000000000000000000000000000000000000000000000000000000000000000000000";
+pub fn pad_integral_model<'a>(f: &mut core::fmt::Formatter<'a>, is_nonnegative: bool, prefix: &str, buf: &str) -> core::fmt::Result
+where
+    'a: 'a, // early-bound, so that Kani's generic-parameter count matches `Formatter::<'a>::pad_integral`
+{
+    let mut n = buf.len();
+    if !is_nonnegative {
+        f.write_str("-")?;
+        n += 1;
+    }
+    if f.alternate() {
+        f.write_str(prefix)?;
+        n += prefix.len();
+    }
+    if f.sign_aware_zero_pad() {
+        if let Some(w) = f.width() {
+            if w > n {
+                let z = w - n;
+                if z > ZEROS.len() {
+                    return Err(core::fmt::Error);
+                }
+                f.write_str(&ZEROS[..z])?;
+            }
+        }
+    }
+    f.write_str(buf)
+}
+
+// ---- C18: CBMC's model of exp2 is an approximation with a nondeterministic error term (a 2^BITS that is off by an
+// ulp makes every float harness meaningless, and the query does not finish).  ruint calls exp2 only on integer-valued
+// arguments (`BITS as f64`, `exponent as f64`), where the result is exactly representable: the stub builds that power
+// of two from its bit pattern.  A non-integer argument reaching the stub is a failed obligation, not an assumption.
+pub fn exp2_exact(x: f64) -> f64 {
+    let k = x as i64;
+    assert!(k as f64 == x, "exp2 stub: argument is not an integer");
+    if k > 1023 {
+        f64::INFINITY
+    } else if k >= -1022 {
+        f64::from_bits(((1023 + k) as u64) << 52)
+    } else if k >= -1074 {
+        f64::from_bits(1u64 << (k + 1074))
+    } else {
+        0.0
+    }
+}
+pub fn exp2f_exact(x: f32) -> f32 {
+    let k = x as i64;
+    assert!(k as f32 == x, "exp2 stub: argument is not an integer");
+    if k > 127 {
+        f32::INFINITY
+    } else if k >= -126 {
+        f32::from_bits(((127 + k) as u32) << 23)
+    } else if k >= -149 {
+        f32::from_bits(1u32 << (k + 149))
+    } else {
+        0.0
+    }
+}
+
+// ---- C13 (compositional, narrow widths): the single-limb multipliers replaced by their specification, which C02's
+// `narrow` harnesses decide against the real code for every operand pair at the same widths.
+pub fn overflowing_mul_spec1<const BITS: usize, const LIMBS: usize>(a: Uint<BITS, LIMBS>, b: Uint<BITS, LIMBS>) -> (Uint<BITS, LIMBS>, bool) {
+    assert!(LIMBS == 1 && BITS <= 16, "mul spec stub: narrow single-limb widths only");
+    let p = a.as_limbs()[0] * b.as_limbs()[0];
+    let m = ruint::mask(BITS);
+    let mut l = [0u64; LIMBS];
+    l[0] = p & m;
+    (Uint::from_limbs(l), p > m)
+}
+pub fn wrapping_mul_spec1<const BITS: usize, const LIMBS: usize>(a: Uint<BITS, LIMBS>, b: Uint<BITS, LIMBS>) -> Uint<BITS, LIMBS> {
+    overflowing_mul_spec1(a, b).0
+}
+
+// f64::log2 on the integers 1..=255 (all that `approx_log2` can pass at widths <= 8 bits): correctly rounded table.
+// CBMC's own log2 is an approximation with a nondeterministic error term.  Any other argument fails the harness.
+pub const LOG2_TABLE: [f64; 256] = [0.0, 0.0, 1.0, 1.584962500721156, 2.0, 2.321928094887362, 2.584962500721156, 2.807354922057604, 3.0, 3.169925001442312, 3.321928094887362, 3.4594316186372973, 3.584962500721156, 3.700439718141092, 3.807354922057604, 3.9068905956085187, 4.0, 4.087462841250339, 4.169925001442312, 4.247927513443585, 4.321928094887363, 4.392317422778761, 4.459431618637297, 4.523561956057013, 4.584962500721156, 4.643856189774724, 4.700439718141092, 4.754887502163468, 4.807354922057604, 4.857980995127572, 4.906890595608519, 4.954196310386875, 5.0, 5.044394119358453, 5.087462841250339, 5.129283016944966, 5.169925001442312, 5.20945336562895, 5.247927513443585, 5.285402218862249, 5.321928094887363, 5.357552004618084, 5.392317422778761, 5.426264754702098, 5.459431618637297, 5.491853096329675, 5.523561956057013, 5.554588851677638, 5.584962500721156, 5.614709844115208, 5.643856189774724, 5.672425341971495, 5.700439718141092, 5.727920454563199, 5.754887502163468, 5.78135971352466, 5.807354922057604, 5.832890014164741, 5.857980995127572, 5.882643049361842, 5.906890595608519, 5.930737337562887, 5.954196310386875, 5.977279923499917, 6.0, 6.022367813028454, 6.044394119358453, 6.066089190457772, 6.087462841250339, 6.108524456778169, 6.129283016944966, 6.149747119504682, 6.169925001442312, 6.189824558880018, 6.20945336562895, 6.22881869049588, 6.247927513443585, 6.266786540694901, 6.285402218862249, 6.303780748177103, 6.321928094887363, 6.339850002884624, 6.357552004618084, 6.3750394313469245, 6.392317422778761, 6.409390936137702, 6.426264754702098, 6.442943495848728, 6.459431618637297, 6.475733430966398, 6.491853096329675, 6.507794640198696, 6.523561956057013, 6.539158811108031, 6.554588851677638, 6.569855608330948, 6.584962500721156, 6.599912842187128, 6.614709844115208, 6.6293566200796095, 6.643856189774724, 6.658211482751795, 6.672425341971495, 6.6865005271832185, 6.700439718141092, 6.714245517666122, 6.727920454563199, 6.741466986401147, 6.754887502163468, 6.768184324776926, 6.78135971352466, 6.794415866350106, 6.807354922057604, 6.820178962415188, 6.832890014164741, 6.845490050944375, 6.857980995127572, 6.870364719583405, 6.882643049361842, 6.894817763307944, 6.906890595608519, 6.918863237274595, 6.930737337562887, 6.94251450533924, 6.954196310386875, 6.965784284662087, 6.977279923499917, 6.9886846867721655, 7.0, 7.011227255423254, 7.022367813028454, 7.03342300153745, 7.044394119358453, 7.05528243550119, 7.066089190457772, 7.076815597050831, 7.087462841250339, 7.098032082960526, 7.108524456778169, 7.118941072723508, 7.129283016944966, 7.139551352398794, 7.149747119504682, 7.159871336778389, 7.169925001442312, 7.1799090900149345, 7.189824558880018, 7.199672344836364, 7.20945336562895, 7.219168520462161, 7.22881869049588, 7.2384047393250786, 7.247927513443585, 7.257387842692652, 7.266786540694901, 7.2761244052742375, 7.285402218862249, 7.294620748891627, 7.303780748177103, 7.312882955284356, 7.321928094887363, 7.330916878114617, 7.339850002884624, 7.348728154231077, 7.357552004618084, 7.366322214245816, 7.3750394313469245, 7.383704292474052, 7.392317422778761, 7.400879436282184, 7.409390936137702, 7.417852514885898, 7.426264754702098, 7.434628227636725, 7.442943495848728, 7.451211111832329, 7.459431618637297, 7.467605550082998, 7.475733430966398, 7.483815777264256, 7.491853096329675, 7.499845887083206, 7.507794640198696, 7.515699838284043, 7.523561956057013, 7.531381460516312, 7.539158811108031, 7.546894459887636, 7.554588851677638, 7.562242424221073, 7.569855608330948, 7.577428828035749, 7.584962500721156, 7.592457037268081, 7.599912842187128, 7.60733031374961, 7.614709844115208, 7.622051819456376, 7.6293566200796095, 7.636624620543649, 7.643856189774724, 7.651051691178929, 7.658211482751795, 7.6653359171851765, 7.672425341971495, 7.679480099505446, 7.6865005271832185, 7.693486957499325, 7.700439718141092, 7.7073591320808825, 7.714245517666122, 7.721099188707185, 7.727920454563199, 7.734709620225838, 7.741466986401147, 7.7481928495894605, 7.754887502163468, 7.7615512324444795, 7.768184324776926, 7.774787059601174, 7.78135971352466, 7.787902559391432, 7.794415866350106, 7.800899899920305, 7.807354922057604, 7.813781191217037, 7.820178962415188, 7.826548487290915, 7.832890014164741, 7.839203788096944, 7.845490050944375, 7.851749041416057, 7.857980995127572, 7.864186144654281, 7.870364719583405, 7.876516946564999, 7.882643049361842, 7.888743248898259, 7.894817763307944, 7.900866807980749, 7.906890595608519, 7.912889336229962, 7.918863237274595, 7.924812503605781, 7.930737337562887, 7.936637939002571, 7.94251450533924, 7.948367231584678, 7.954196310386875, 7.960001932068081, 7.965784284662087, 7.971543553950772, 7.977279923499917, 7.98299357469431, 7.9886846867721655, 7.994353436858858];
+pub fn log2_table(x: f64) -> f64 {
+    let k = x as u64;
+    assert!(k as f64 == x && k >= 1 && k <= 255, "log2 stub: argument outside the table");
+    LOG2_TABLE[k as usize]
 }
